@@ -327,9 +327,21 @@ func c17SerCheck(c c11Case) error {
 	}
 	s := simdjson.NewSerializer()
 	s.CompressMode(simdjson.CompressMode(c.SerMode % 4))
-	out, err := s.Deserialize(s.Serialize(nil, *pj), nil)
+	var dst *simdjson.ParsedJson
+	if c.DstUsed {
+		// the destination held another, longer document before
+		prev, perr := simdjson.Parse([]byte(`{"previous":[{"a":[1,2,3,{"b":[4,5,6]}]},"document","with","a","longer","tape",[[[[1.5,2.5]]]],{"k":{"k":{"k":null}}},0,1,2,3,4,5,6,7,8,9,10,11,12,13,14,15,16,17,18,19,20]}`), nil)
+		if perr != nil {
+			return bugf("%v", perr)
+		}
+		dst, perr = s.Deserialize(s.Serialize(nil, *prev), nil)
+		if perr != nil {
+			return bugf("%v", perr)
+		}
+	}
+	out, err := s.Deserialize(s.Serialize(nil, *pj), dst)
 	if err != nil {
-		return fmt.Errorf("Deserialize(Serialize(tape)): %v", err)
+		return fmt.Errorf("Deserialize(Serialize(tape)) into a destination (reused: %v): %v", c.DstUsed, err)
 	}
 	if _, err := tapeCheck(out, true); err != nil {
 		return fmt.Errorf("deserialized tape violates the format (mode %d): %v\ndocument %q, %d edits", c.SerMode%4, err, clip(c.H.Doc), len(c.H.Ops))
@@ -343,7 +355,7 @@ func TestC17_Deserialized(t *testing.T) {
 	mix := opMix{sets: true, delObj: true, delArr: true, setNullContainer: true, nullRoot: true}
 	runRapid(t, "C17_Deserialized", nCases(30_000, 600_000), func(t *rapid.T) {
 		h := genHistory(t, mix, 8, editProfiles)
-		c := c11Case{H: h, SerMode: rapid.IntRange(0, 3).Draw(t, "mode")}
+		c := c11Case{H: h, SerMode: rapid.IntRange(0, 3).Draw(t, "mode"), DstUsed: rapid.Bool().Draw(t, "dstused")}
 		c17SerRun(t, c)
 		f := historyFactsOf(h)
 		col("C17").Eval(f.nopGap || h.ND, historyHash(h), "src:deserialized", boolClass("nop-run", f.nopGap))
